@@ -84,8 +84,17 @@ def mergeTags (ops : List Op) : List String :=
       t ++ go (step s op).1 rest
   go [] ops
 
+/-- `padd p f1 t1 f2 t2`: two requests for the same partition filed concurrently, the first caller's broadcast stalling in
+the transport; the tracker serialises them (the first caller holds the lock), so it is two `add`s in that order -/
+def parseOps (s : String) : Option (List Op) :=
+  match words s with
+  | ["padd", p, f1, t1, f2, t2] => do
+    let p ← p.toInt?
+    pure [.add p (← f1.toInt?) (← t1.toInt?), .add p (← f2.toInt?) (← t2.toInt?)]
+  | _ => (parseOp s).map (fun o => [o])
+
 def check (input impl : String) : Verdict :=
-  match (fields input ";").mapM parseOp with
+  match ((fields input ";").mapM parseOps).map List.flatten with
   | none => { model := "bad-input" }
   | some ops =>
     let (outs, fin) := modelRun ops
@@ -97,6 +106,6 @@ def check (input impl : String) : Verdict :=
       else none
     let raw := (run [] ops).2
     let tags := ((ops.zip raw).flatMap (fun x => opTag x.1 x.2) ++ mergeTags ops).eraseDups
-    { model := renderAll outs fin, spec := sp, inScope := scope, tags := tags }
+    { model := renderAll outs fin, spec := sp, inScope := scope, tags := tags ++ (if input.contains "padd" then ["concurrent-adds"] else []) }
 
 end Firebolt.Tracker
